@@ -428,10 +428,17 @@ def main(argv=None):
             merged['classes'].update(res['classes'])
             merged['extra'].update(res['extra'])
             merged['hyp_examples'] += res['hyp_examples']
-            for s in res['samples']:
-                if len(merged['samples']) < 10:
-                    merged['samples'].append(s)
+            merged.setdefault('pending_samples', []).append(res['samples'])
             violations.extend(res['violations'])
+
+    # samples: round-robin over the tasks so that they show different kinds of cases
+    pending = sorted(merged.pop('pending_samples', []), key=lambda ss: json.dumps(ss, sort_keys=True, default=str))
+    depth = 0
+    while len(merged['samples']) < 10 and any(len(ss) > depth for ss in pending):
+        for ss in pending:
+            if len(ss) > depth and len(merged['samples']) < 10 and ss[depth] not in merged['samples']:
+                merged['samples'].append(ss[depth])
+        depth += 1
 
     # 3. classify violations: one line per site, smallest case first
     #    (a CPU-budget hit is reported, its case is saved, but it is 'inconclusive', never a violation)
@@ -487,6 +494,11 @@ def write_evidence(module, prop, tier, seed, merged, n_viol, wall, n_regress, n_
         'regress_replays': n_regress,
     }
     coverage.update({k: int(v) for k, v in merged['extra'].items()})
+    if merged['extra'].get('exhaustive_tables'):
+        coverage['exhaustive_part'] = (f"{int(merged['extra']['exhaustive_tables'])} tables: every boolean table up to the cell "
+                                       "bound named in 'rule' for this tier was enumerated completely; all other cases are sampled "
+                                       "(seeded by VERIF_SEED)")
+    coverage['exhaustive'] = False
     if hasattr(module, 'coverage_extra'):
         coverage.update(module.coverage_extra(tier, seed))
     doc = {'property_id': prop, 'tier': tier, 'seed': seed, 'level': 'exploration',
